@@ -136,7 +136,10 @@ def check(repo, tier):
                         fn = repo.fn(entry)
                         run.add(Finding('C07', 'D3', fn.where, 'sweep order', f'{scen}: micro systems were solved for cores {seq}, expected {want}', fn.file, fn.node.lineno))
                     if ok and d > 1:
-                        notro = [k for k in range(1, d) if orth_of(res._attrs['cores'][k]) != 'RO']
+                        iso = {k: l2rules.core_iso(res._attrs['cores'][k], 'RO') for k in range(1, d)}
+                        notro = [k for k, v_ in iso.items() if v_ is False]
+                        if not notro and any(v_ is None for v_ in iso.values()):
+                            raise AnalysisError(f'{scen}: right-orthonormality of cores {[k for k, v_ in iso.items() if v_ is None]} of the result can neither be proved nor refuted')
                         run.oblige('D3', (entry, scen, 'frame'), not notro)
                         if notro:
                             fn = repo.fn(entry)
